@@ -26,7 +26,7 @@ Section FiltChainAddr.
     | FE i => navf i lv
     | FC i o lit => navp (ctest i o (lit_num parse_float lit)) lv
     | FN i => navp (fun x => negb (reaches i x)) lv
-    | FQ d => navp (dnf_test parse_float root (kids (snd lv)) d) lv
+    | FQ d => navp (dnf_test parse_float regex_match root (kids (snd lv)) d) lv
     end.
   Fixpoint nav_allf (root : value) (l : list fstep) (lv : list pstep * value) : list (list pstep * value) :=
     match l with [] => [lv] | x :: r => flat_map (nav_allf root r) (nav1f root x lv) end.
@@ -119,7 +119,7 @@ Section FiltChainAddr.
     cbn [wrap fst snd]. rewrite HB. unfold loc_result. cbn [fst snd]. destruct (cfg_accessor cfg); reflexivity.
   Qed.
 
-  Theorem fchain_retrieval x r doc st : forallb fstep_ok (x :: r) = true -> forallb (fstep_okp parse_float) (x :: r) = true -> small doc -> ok st ->
+  Theorem fchain_retrieval x r doc st : forallb fstep_ok (x :: r) = true -> forallb (fstep_okp parse_float regex_ok) (x :: r) = true -> small doc -> ok st ->
     exists t, parse (fchain_path (x :: r)) = ParseOk t /\
               match nav_allf doc (x :: r) ([], doc) with
               | [] => exists e, fst (eval_run t doc st) = OErr e
@@ -151,7 +151,7 @@ Section FiltChainAddr.
   Lemma nav1f_rootfree root root' x lv : fstep_rootfree x = true -> nav1f root x lv = nav1f root' x lv.
   Proof.
     intros H. destruct x as [y|i|i o lit|i|d]; cbn [nav1f]; try reflexivity. cbn [fstep_rootfree] in H.
-    assert (E : forall vals v, dnf_test parse_float root vals d v = dnf_test parse_float root' vals d v).
+    assert (E : forall vals v, dnf_test parse_float regex_match root vals d v = dnf_test parse_float regex_match root' vals d v).
     { intros vals v. unfold dnf_test. induction d as [|c d IH]; [reflexivity|]. cbn [forallb] in H. apply andb_true_iff in H. destruct H as [H1 H2].
       cbn [existsb]. rewrite (IH H2). f_equal. clear -H1. induction c as [|b c IH]; [reflexivity|]. cbn [forallb] in H1. apply andb_true_iff in H1. destruct H1 as [Hb Hc].
       cbn [forallb]. rewrite (IH Hc). f_equal. destruct b; try discriminate Hb; reflexivity. }
